@@ -1,6 +1,6 @@
 CONSTANTS
   N = 3
-  Hows = {"ok", "retryok", "close", "hang", "clientgone"}
+  Hows = {"ok", "retryok", "retry2ok", "close", "hang", "clientgone"}
 INIT Init
 NEXT Next
 INVARIANT Emit
